@@ -38,7 +38,7 @@ RULE = ("strings: sentences derived from the grammar file by a coverage-guided r
         "non-trivial = string of >=2 tokens (lexer) / sequence with a verdict (parser); distinct by SHA-1 of the string")
 BUDGET = {"quick": 120000, "thorough": 900000}
 MIN_NONTRIVIAL = {"quick": 30000, "thorough": 200000}
-REQUIRED_TAGS = ["derived-sentence", "atn-derived-sentence", "class-substitution", "mutated-sentence", "lexer-rule-string", "lexer-rule-edit", "char-soup", "accepted", "rejected", "cpp-atn-lexer", "rtn-recogniser"]
+REQUIRED_TAGS = ["derived-sentence", "atn-derived-sentence", "class-substitution", "mutated-sentence", "lexer-rule-string", "lexer-rule-edit", "char-soup", "accepted", "rejected", "cpp-atn-lexer", "rtn-recogniser", "unusual-end-character"]
 ASSUMPTIONS = ["ANTLR lexer semantics for a grammar without modes/predicates/actions: longest match, earliest rule wins ties (bbverif/g4ref.py)",
                "the generated C++ rule functions are not executed (no ANTLR C++ runtime/tool offline); their skeleton is compared textually with the Python target's",
                "that the artefacts are what ANTLR 4.9.2 would emit is not claimed; identity of the shipped automata and language agreement on the explored strings is"]
@@ -790,6 +790,9 @@ class Texts:
         return "".join(out)
 
 
+FIRST_CHARS = ["\ufeff", "\ufffe", "\x00", "\u200b", "\xa0", "\x0c", "\u2060", "\x1a", "\ufeff\ufeff", "\u2028", "\x85", "\x1b", "\ufeff#!", "\x04"]
+
+
 def compare(ctx, g, text, tags, aux):
     """One 'program': compare tokens and verdict between shipped artefacts and reference."""
     witness = {"text": text}
@@ -830,6 +833,12 @@ def compare(ctx, g, text, tags, aux):
         return ctx.violation("parser-verdict-disagrees:" + ("grammar-accepts" if ok else "grammar-rejects"),
                              "grammar file %s, shipped parser %s, shipped ATN read as RTN %s -> points at %s; tokens %s" % (
                                  "accepts" if ok else "rejects", "accepts" if real else "rejects", "accepts" if r_ok else "rejects", blame, [t.type for t in ref][:60]), witness)
+    if aux["n"] % 11 == 0 and "unusual-end-character" not in tags:
+        # the same text behind (or before) a character that decoders, editors and terminals treat specially, but
+        # the grammar does not: a position-dependent treatment of such a character is a deviation from the grammar
+        ch = FIRST_CHARS[(aux["n"] // 11) % len(FIRST_CHARS)]
+        aux["n"] += 1
+        compare(ctx, g, ch + text if (aux["n"] // 11) % 3 else text + ch, tags[:1] + ["unusual-end-character"], aux)
     if r_ok is not None and r_ok != ok:
         return ctx.violation("atn-rtn-disagrees", "the shipped ATN read as a recursive transition network %s a sequence the grammar file %s" % (
             "accepts" if r_ok else "rejects", "accepts" if ok else "rejects"), witness)
